@@ -667,7 +667,8 @@ func (env *Environment) handleHooks(workflow workflow.Role, trigger string, weig
 
 	// FOR EACH weight within the current state machine trigger moment
 	// 4 phases: start calls, await calls, execute task hooks, error handling
-	for _, weight := range filteredWeights {
+	for weightIdx := 0; weightIdx < len(filteredWeights); weightIdx++ { // not a range loop: PHASE 1 may add weights to await at
+		weight := filteredWeights[weightIdx]
 		hooksForWeight, thereAreHooksToStartForTheCurrentTriggerAndWeight := hooksMapForTrigger[weight]
 
 		// PHASE 1: start asynchronously any call hooks and add them to the pending await map
@@ -694,6 +695,17 @@ func (env *Environment) handleHooks(workflow workflow.Role, trigger string, weig
 					}
 					env.callsPendingAwait[awaitName][awaitWeight] = append(
 						env.callsPendingAwait[awaitName][awaitWeight], call)
+
+					// If the call is to be awaited later within this same trigger moment, at a weight for which
+					// nothing is triggered, we must still stop there to await it.
+					if awaitName == trigger && awaitWeight > weight && weightPredicate(awaitWeight) {
+						insertAt := sort.Search(len(filteredWeights), func(i int) bool { return filteredWeights[i] >= awaitWeight })
+						if insertAt == len(filteredWeights) || filteredWeights[insertAt] != awaitWeight {
+							filteredWeights = append(filteredWeights, 0)
+							copy(filteredWeights[insertAt+1:], filteredWeights[insertAt:])
+							filteredWeights[insertAt] = awaitWeight
+						}
+					}
 				}
 				callsToStart.StartAll() // returns immediately (async)
 			}
